@@ -117,8 +117,176 @@ reg("C16", ["c16", "c16e"],
     assumptions=["timestamp texts contain only code points <= U+00FF (all that latin1_to_string / unescape can produce)"])
 
 
-# ---- registered for development, not yet claimed in MANIFEST.json (theorems still being written)
-for _pid, _fams in (("C01", ["c01"]), ("C02", ["c02"]), ("C03", ["c03"]), ("C04", ["c04"]), ("C07", ["c07"]), ("C08", ["c08"]),
-                    ("C12", ["c12"]), ("C13", ["c13", "errtab"]), ("C14", ["c14"]), ("C15", ["c15"]), ("C19", ["c19"])):
-    if _pid not in PROPS:
-        reg(_pid, _fams, rule="(development)", text="(development)", note="(development)", claimed=False)
+
+PIPE = "pipeline model Model/Validate.v (from_request_parts, get_auth_parameters, get_authenticator, prevalidate, validate_signature, validate)"
+VALRULE = ("every case is one HTTP request + server configuration + scripted key provider run through sigv4_validate_request (all three "
+           "built-in body types, both requirement containers); the implementation's outcome (accepted parts/body/identity or error kind, "
+           "code, status), the provider calls it made and, through the `unstable` API, its canonical request and string-to-sign are compared "
+           "with the model, and the property predicate is evaluated on the implementation's observation. non-trivial = not tagged trivial; "
+           "distinct = distinct input lines. ")
+
+reg("C01", ["c01"],
+    rule=VALRULE + "c01 family: reference-signed base requests (both carriers, +-token, S3/fold options) and, for each, every single-component "
+         "mutation: each of the 64 signature digits (other digit, other case), truncated/extended/empty/upper-case signature, method, path byte, "
+         "query name/value/added parameter (incl. letter-case variants of the X-Amz-* names), signed header value/multiplicity/order, body byte, "
+         "timestamp +-1 s, each scope field, the key; a mutant must be refused, the base accepted.",
+    text="Machine-checked theorems: validate = Accepted implies exactly one provider call for the expected (access key, token, UTC date, region, "
+         "service), the provider answered a key, and the presented signature equals lower_hex(hmac H key sts) where sts is the *specification's* "
+         "string-to-sign of the request as received (spec path, spec query, spec header block, payload hash, compact UTC timestamp, scope); the "
+         "canonical request and string-to-sign assemblies are injective, so equal signatures imply equal (key, string-to-sign) HMAC values. Stated "
+         "for an arbitrary hash H; guarded by the known-finding class D1 ('+' in the path), with a machine-checked refutation witness.",
+    note="Trusted: kernel; " + PIPE + "; harness signer; cryptographic strength of HMAC-SHA256 is outside the logic. Known finding D1: /a+b and "
+         "/a%20b share one canonical request.",
+    assumptions=["HMAC-SHA256 collision/forgery resistance (prose reading only)", SIGNER,
+                 "known finding D1: a literal '+' in the path is canonicalised as a space"],
+    extra_trust=[SIGNER, THIRD])
+
+reg("C02", ["c02"],
+    rule=VALRULE + "c02 family: logical requests signed by the independent reference signer and written in random admissible wire spellings "
+         "(hex case, needless escapes, %20 vs +, shuffled parameters, mixed-case header names, padded values, repeated names, prefix-related "
+         "names, names in URL and body), both carriers, +-token, all four option combinations, clock offsets within +-15 min incl. both ends and "
+         "UTC-day changes; each must be accepted. Corpus of the inputs of the repaired defects D2, D4, D5 runs first.",
+    text="Machine-checked theorems: acceptance is equivalent to 'the presented signature is the reference signature over the specification's "
+         "string-to-sign' given carrier/requirement/freshness/scope side conditions (C02_accept_iff_spec_signature, with C01 as the converse); "
+         "the specification's canonical request is invariant under every admissible respelling (path spelling, query permutation/respelling, "
+         "header-name case, value padding, cross-name order), hence so is acceptance; a request carrying the reference signer's Authorization "
+         "header is accepted. Guarded by the known-finding class D1 with a refutation witness.",
+    note="Trusted: kernel; " + PIPE + "; harness signer and spelling generator. Known finding D1 ('+' in a path segment) is an open finding: "
+         "such requests signed over the reference canonical path are refused.",
+    assumptions=[SIGNER, "known finding D1: a literal '+' in the path is canonicalised as a space"],
+    extra_trust=[SIGNER, THIRD])
+
+reg("C03", ["c03"],
+    rule=VALRULE + "c03 family: credential strings with 0-8 parts, parts that are prefixes/suffixes/case variants/empty/padded/lenient spellings of "
+         "the expected values, dates one day off or malformed, timestamps near midnight UTC with offsets so that local date != UTC date != server "
+         "date; each also signed correctly under the foreign scope; the instrumented provider records its arguments.",
+    text="Machine-checked theorems: acceptance implies the credential splits into exactly [access key; yyyymmdd(UTC date of the timestamp); "
+         "configured region; configured service; aws4_request] and the provider was asked for exactly (access key, token, that date, region, "
+         "service); another number of parts gives IncompleteSignature (400) and any other mismatch SignatureDoesNotMatch (403), both with zero "
+         "provider calls and for every provider (so a signature valid under the foreign scope's key is refused without a lookup).",
+    note="Trusted: kernel; " + PIPE + "; Calendar.v for the UTC date; harness signer for the foreign-scope signatures.",
+    assumptions=[SIGNER], extra_trust=[SIGNER])
+
+reg("C04", ["c04"],
+    rule=VALRULE + "c04 family: correctly signed requests whose instant lies at now+-15 min exactly, +-1 ns and +-1 s around both bounds, and at "
+         "whole-second offsets across [-20, +20] min (thorough: every second), for server times at day/month/year/leap-day boundaries, each in "
+         "several textual renderings (basic/extended, Z, +-hh:mm incl. -00:mm, fractions).",
+    text="Machine-checked theorems: the freshness stage passes iff now-900e9 <= t <= now+900e9 ns (both inclusive; constant regenerated from the "
+         "source); outside the window validate_signature returns SignatureDoesNotMatch with zero provider calls for every provider; inside it "
+         "prevalidate equals the scope check alone; acceptance implies freshness of the parsed instant; two texts denoting the same instant get "
+         "the same decision and, when the canonical request is unchanged, the same verdict.",
+    note="Trusted: kernel; " + PIPE + "; Iso8601.v/Calendar.v (regex and chrono re-implemented, correspondence-checked).",
+    assumptions=["server time passed by the caller is representable in chrono (the harness stays within years 1970-9999)"])
+
+reg("C07", ["c07"], level="proof", technique=TECH_PARTIAL,
+    rule="c07 family (cttrace): for fixed request/key scenarios, children forked from one parent image build an authenticator whose presented "
+         "signature differs from the expected one at a chosen position (single wrong character, or every character from that position on; "
+         "substituted character kept in its class), stop, run validate_signature under PTRACE_SINGLESTEP, stop; the number of executed "
+         "instructions and the hash of every RIP must be identical for all positions (quick: 0,1,31,32,62,63 x 2 requests x 2 styles; "
+         "thorough: all 64 positions x 4 requests x 2 styles). The binary supplies byte-wise early-exit memcmp/bcmp. distinct = distinct groups",
+    text="Proved: in the leakage model the steps of the constant-time comparison depend only on operand lengths, hence the steps of "
+         "validate_signature are independent of the presented signature's content; the model distinguishes an early-exit comparison "
+         "(non-vacuity); the comparison expression regenerated from auth.rs is one of the audited ct_eq forms. Observed, not proved: the "
+         "compiled instruction trace (ptrace single-step equality over mismatch positions). Partial: no ISA semantics is available offline.",
+    note="Trusted: kernel; Model/Leakage.v as the leakage model; extract_src.py for the comparison expression; ptrace observation of the "
+         "release build on this machine; `subtle` itself is not verified.",
+    assumptions=["the release build of the harness is representative of deployed builds", "leakage model: one step per processed byte, no data-dependent branch inside subtle::ct_eq"],
+    extra_trust=["ptrace single-step tracer harness/src/bin/cttrace.rs"])
+
+reg("C08", ["c08"], technique=TECH_PARTIAL,
+    rule=VALRULE + "c08 family: every public operation under catch_unwind: bodies of 0, 1, 65533-65537, 70000, 200000 bytes, charset labels "
+         "with valid/invalid bodies, invalid UTF-8, malformed escapes followed by multi-byte characters, degenerate URIs, headers with bytes "
+         "0x80-0xFF, option x requirement combinations, secrets of every length for capacities 0..64; outcome class compared with the model.",
+    text="Machine-checked theorems: validate never returns Panicked (every explicit panic branch of the model - unescape of normalised query "
+         "values, the credential-scope split after prevalidate, empty value vectors - is unreachable, by invariants on the maps built by "
+         "query_map/normalize_headers); from_str never panics for any length and capacity; every panic-capable site regenerated from the "
+         "non-test source is in the audited inventory. Partial w.r.t. third-party crates (encoding, regex, http, chrono are oracles).",
+    note="Trusted: kernel; " + PIPE + " with explicit Panic branches guarded as in Rust; extract_src.py panic-site scanner (syntactic); "
+         "catch_unwind observation in the harness (release profile).",
+    assumptions=["operations documented as panicking on malformed escapes (unescape_uri_encoding) are excepted, as the property says", THIRD],
+    extra_trust=[THIRD])
+
+reg("C12", ["c12"],
+    rule=VALRULE + "c12 family: URL x body parameter lists incl. names in both, content-type spellings (case, padding, parameters before/after "
+         "charset, quoted charset, charset without value), charset labels (UTF-8 family, unknown, other known through the decode oracle), both "
+         "option values, bodies incl. invalid and truncated UTF-8; reference-signed; returned URI/body compared.",
+    text="Machine-checked theorems: when folding applies the canonical query is the specification query of url_pairs ++ body_pairs (a "
+         "permutation of the encoded pairs: nothing dropped or invented, per-name order URL first), the payload hash is that of the empty body, "
+         "the returned body is empty and the returned URI is path?canonical-query; otherwise the query comes from the URL alone and the payload "
+         "hash is H(body), so bodies with different hashes give different canonical requests; undecodable bodies / unknown charsets are "
+         "InvalidBodyEncoding (400), and only those.",
+    note="Trusted: kernel; " + PIPE + "; UTF-8 validity modelled (Utf8.v), other charsets through a decode oracle supplied by the harness from "
+         "the `encoding` crate.",
+    assumptions=["non-UTF-8 known charsets: the decoded body is an oracle input", SIGNER], extra_trust=[SIGNER, THIRD])
+
+reg("C13", ["c13", "errtab"],
+    rule=VALRULE + "c13 family: a valid request with subsets of defects injected (bad path, bad query, carrier defects, bad algorithm, bad k=v, "
+         "each missing parameter, requirement violations, bad date, expired, future, arity, each scope field, provider error of each kind, wrong "
+         "signature) on both carriers; kind/code/status compared with the model and with the documented precedence; errtab family: every error "
+         "kind's code and status against the regenerated tables.",
+    text="Machine-checked theorems: validate's outcome equals an independently written flat cascade first_failure in the documented order "
+         "(C13_precedence), with one dominance theorem per stage quantified over everything later; the kind alone fixes code and status over the "
+         "tables regenerated from error.rs (six kinds 400, four 403, two 500, never a success status); the kinds reachable without the provider "
+         "are the six request kinds.",
+    note="Trusted: kernel; " + PIPE + "; extract_src.py for the error_code/http_status match arms.",
+    assumptions=["message texts are not part of the property (kinds, codes and statuses are)"])
+
+reg("C14", ["c14"],
+    rule=VALRULE + "c14 family: instrumented hand-written tower::Service (poll_ready Pending x k / Ready(Ok) / Ready(Err), future Pending x j then "
+         "Ok / Err(each kind) / foreign error) driven by a counting executor; requests valid or defective at every rule; histories of "
+         "validations on one instance; event logs compared with the model's predicted calls.",
+    text="Machine-checked theorems: the call list is exactly [the expected request] when every earlier stage passed and the provider is ready, "
+         "else empty (at most one call, none before readiness, none for requests failing any structural/header/freshness/scope check); a "
+         "provider error e gives Refused (from_box e) (SignatureError unchanged, foreign -> InternalServiceError 500); no error or not-ready "
+         "provider leads to acceptance; for any history over a stateful provider, calls <= prevalidated validations and each outcome equals the "
+         "stand-alone one at the state reached.",
+    note="Trusted: kernel; " + PIPE + "; tower's oneshot re-stated as Provider.oneshot (pending states are inert in the model by construction; "
+         "their harmlessness in the code is observed by the harness only).",
+    assumptions=["tower::ServiceExt::oneshot behaves as re-stated (poll_ready to completion, one call, future to completion)"],
+    extra_trust=[THIRD])
+
+reg("C15", ["c15"],
+    rule=VALRULE + "c15 family: accepted reference-signed requests (all methods, versions, header multisets, bodies, both carriers, folded or "
+         "not); returned method, version, header list (per-name order), body, URI and identity compared with the submitted request / provider "
+         "table and with the model.",
+    text="Machine-checked theorems: without folding the returned parts and body are the submitted ones; with folding method/version/headers are "
+         "unchanged, the body is empty and the returned URI is path?q where q is exactly the authenticated canonical query, which parses back to "
+         "a permutation of the merged URL+body pairs minus X-Amz-Signature; the identity is the provider's answer for the single call.",
+    note="Trusted: kernel; " + PIPE + "; the `http` crate's Parts round trip is observed by the harness.",
+    assumptions=[SIGNER], extra_trust=[SIGNER, THIRD])
+
+reg("C17", ["c17"], technique=TECH_PARTIAL,
+    rule=VALRULE + "c17 family: a corpus of accepted requests and requests refused at every rule (wrong signature, expired, wrong region, bad "
+         "path, provider errors, unknown key, no carrier, arity, requirement) with a capturing `log` logger at Trace; every error string, every "
+         "Debug/Display rendering of the key types, provider request/response, authenticator, canonical request and every record at debug level "
+         "or above is scanned for the secret, 'AWS4'+secret, the four derived keys and the expected signature in raw, hex (both cases), base64 "
+         "(std/url, +-pad) and byte-list form; each refused request is replayed under a second key and must read identically.",
+    text="Proved: a refusal's kind and the provider calls are independent of the key (the key enters only the final comparison, whose failure is "
+         "a constant); over the tables regenerated from the source no log site at debug level or above and no error-construction site "
+         "interpolates a key-carrying identifier, the five key types' Debug/Display are constant literals and none derives Debug. Observed: the "
+         "actual error strings, renderings and log records. Partial: the static tables are syntactic.",
+    note="Trusted: kernel; extract_src.py log/error/rendering site tables (identifier-level, not data flow); the dynamic scan is testing.",
+    assumptions=["taint set of identifiers in Spec/Audit.v", "secrets shorter than 8 bytes are not scanned for (coincidences)"])
+
+reg("C18", ["c18"], technique=TECH_PARTIAL,
+    rule=VALRULE + "c18 family: each corpus request is validated twice in one process, in fresh processes (fresh hash seeds, cold lazily "
+         "initialised regexes) and concurrently from 1, 2, 4, 8 and 16 threads started on a barrier and running the corpus in different orders; "
+         "every digest (outcome, kind, code, status, returned parts and body, identity, provider calls) must equal the first, and the first "
+         "must equal the model's answer.",
+    text="Proved: the model is a function of (request, clock, configuration, provider answer); its canonical query, canonical request, "
+         "requirement check, authenticator and verdict are invariant under every permutation of the HashMap-modelled association lists (distinct "
+         "keys, which the pipeline guarantees), including the order in which folded body parameters are merged. Observed: processes and thread "
+         "interleavings, sampled by the OS scheduler. Partial.",
+    note="Trusted: kernel; HashMap modelled as association list + arbitrary permutation; thread schedules are sampled, not enumerated.",
+    assumptions=["schedules are sampled by the OS, not enumerated"])
+
+reg("C19", ["c19"],
+    rule=VALRULE + "c19 family: reference-signed requests with each authentication input duplicated (2-3 copies, every order) where exactly one "
+         "copy is the valid one: Authorization headers, parameters inside it, X-Amz-* query parameters (URL and body), X-Amz-Date vs Date "
+         "headers, security-token headers; both carriers present (incl. non-SigV4 algorithm values); provider records access key and token.",
+    text="Machine-checked theorems: the extracted parameters equal an explicit selection function of the raw request: first Authorization value, "
+         "last occurrence of a repeated parameter inside it, first value of each X-Amz-* query parameter (URL before body when folding), first "
+         "x-amz-date header in preference to any date header, first security-token header; an Authorization header together with an "
+         "X-Amz-Algorithm parameter is refused (SignatureDoesNotMatch).",
+    note="Trusted: kernel; " + PIPE + "; harness signer.",
+    assumptions=[SIGNER], extra_trust=[SIGNER])
